@@ -14,6 +14,7 @@ import (
 	"runtime/pprof"
 	"sort"
 	"sync"
+	"syscall"
 	"testing"
 	"testing/synctest"
 	"time"
@@ -459,6 +460,9 @@ func TestC13Replay(t *testing.T) {
 		// self-test hooks of the orchestrator's dead-driver handling (never set by bin/check)
 		if (s.ID == vh.EnvInt("VERIF_C13_DIE", -1) && only < 0) || s.ID == vh.EnvInt("VERIF_C13_DIEHARD", -1) {
 			os.Exit(3)
+		}
+		if s.ID == vh.EnvInt("VERIF_C13_WEDGE", -1) && only < 0 {
+			syscall.Kill(os.Getpid(), syscall.SIGSTOP) // a process that makes no progress at all
 		}
 		// watchdog in REAL time (outside the bubble): a lifecycle normally takes ~25 ms; if one does not come back
 		// the goroutines are dumped and the process exits so that the orchestrator can attribute and resume
